@@ -3678,6 +3678,15 @@ impl Zeroconf {
             // If there is already a `listener`, it will be updated, i.e. overwritten.
             self.service_queriers.insert(ty.clone(), listener.clone());
 
+            // A new browse replaces the current one: cancel the pending queries of
+            // the previous browse, they would otherwise go on in parallel.
+            if !cache_only {
+                self.retransmissions.retain(|rerun| match &rerun.command {
+                    Command::Browse(t, _, _, _) => t != &ty,
+                    _ => true,
+                });
+            }
+
             // if we already have the records in our cache, just send them
             self.query_cache_for_service(&ty, &listener, now);
         }
@@ -3720,6 +3729,15 @@ impl Zeroconf {
             return;
         }
         if !repeating {
+            // A new search for this hostname replaces the current one: cancel the
+            // pending queries of the previous search, they would otherwise go on
+            // in parallel (and outlive its timeout).
+            let hostname_lower = hostname.to_lowercase();
+            self.retransmissions.retain(|rerun| match &rerun.command {
+                Command::ResolveHostname(h, _, _, _) => h.to_lowercase() != hostname_lower,
+                _ => true,
+            });
+
             self.add_hostname_resolver(hostname.to_owned(), listener.clone(), timeout);
             // if we already have the records in our cache, just send them
             self.query_cache_for_hostname(&hostname, listener.clone());
